@@ -39,6 +39,7 @@ def run(ctx):
     check_order(ctx)
     check_capture(ctx)
     check_where_end(ctx, 'R9.6')
+    check_closer_stays_last(ctx)
     from .. import rules_tree as RT2
     ctx.rule('R9.7', 'grouping is total: no size/depth cut-off in the drivers and passes this property relies on', floor=1)
     RT2.check_no_cutoff(ctx, 'R9.7', only={'_group_matching', '_group'})
@@ -504,6 +505,51 @@ def driver_excludes_delimiters(ctx, g):
             return out, (f'closing delimiter taken as {tl}.tokens[-1], but {clients_after} run after align_comments, which appends trailing '
                          'comments to the group: the closing token is then not the last child and is not protected')
     return out, f'delimiter variables {sorted(dvars)} ({closing_kind}) cover {overriding}; guards on the grouping: {[e for e, p in facts if not p]}'
+
+
+def check_closer_stays_last(ctx):
+    """`_groupable_tokens` of a matched class is tokens[1:-1]: that excludes the closing token only while it is the last child.  A pass that
+    can put further tokens behind the closer (group_tokens(C, start, end, extend=True) with C a base class of the matched classes extends
+    the group at `start`) must therefore not run before a pass that reads `_groupable_tokens`."""
+    repo = ctx.repo
+    ctx.rule('R9.8', 'no pass that can append tokens to a matched group runs before a pass that relies on _groupable_tokens', floor=1)
+    grp = repo.func('sqlparse.engine.grouping.group')
+    lists = [n for n in own_nodes(grp.node) if isinstance(n, ast.List) and len(n.elts) > 5]
+    ctx.need(lists, 'grouping.group: pass list not found')
+    order = [e.id for e in lists[0].elts if isinstance(e, ast.Name)]
+    matched = [repo.cls(f'sqlparse.sql.{c}') for c in MATCHED]
+    readers, extenders = {}, {}
+    for i, pname in enumerate(order):
+        f = repo.funcs.get(f'sqlparse.engine.grouping.{pname}')
+        if f is None:
+            continue
+        for g in [f]:
+            # the pass itself with its nested helpers (the drivers _group / _group_matching get the class from their clients: R9.5)
+            for n in ast.walk(g.node):
+                if isinstance(n, ast.Attribute) and n.attr == '_groupable_tokens':
+                    readers.setdefault(pname, (i, g, n))
+                if isinstance(n, ast.Call) and isinstance(n.func, ast.Attribute) and n.func.attr == 'group_tokens' and n.args:
+                    ext = next((k.value for k in n.keywords if k.arg == 'extend'), n.args[3] if len(n.args) > 3 else None)
+                    if ext is None or (isinstance(ext, ast.Constant) and not ext.value):
+                        continue
+                    try:
+                        c = ctx.folder.eval(n.args[0], g.mod)
+                    except NotConst:
+                        continue          # the class comes from the caller (_group): its clients pass leaf classes, checked by R9.5
+                    if isinstance(c, ClsRef) and any(repo.is_subclass(m, c.cls) for m in matched):
+                        extenders.setdefault(pname, (i, g, n, c.cls.name))
+    ctx.need(readers, 'no pass reads _groupable_tokens any more')
+    first_reader = None
+    last_reader = max(readers.values(), key=lambda r: r[0])
+    for pname, (i, g, n, cname) in sorted(extenders.items(), key=lambda kv: kv[1][0]):
+        # every occurrence of the pass in the order counts
+        occ = [j for j, p_ in enumerate(order) if p_ == pname]
+        early = [j for j in occ if j < last_reader[0]]
+        ctx.ob('R9.8', f'extender:{pname}', f'{g.mod.relpath}:{n.lineno}',
+               f'{pname} (group_tokens({cname}, ..., extend=True) appends to an existing group) runs after every reader of _groupable_tokens', not early,
+               f'{pname} is pass #{early[0] if early else "-"}, {order[last_reader[0]]} (#{last_reader[0]}) reads `_groupable_tokens` later: a comment attached behind `)` / END makes '
+               f'tokens[1:-1] include the closing token, and the clause that runs to the end of the group swallows it')
+    ctx.ob('R9.8', 'inventory', f'{grp.mod.relpath}:{grp.node.lineno}', f'readers of _groupable_tokens: {sorted(readers)}; passes that can extend a matched group: {sorted(extenders)}', True)
 
 
 def check_where_end(ctx, rid):
